@@ -50,6 +50,12 @@ type rZone struct { // a zone block known to the region by the ETXs it emitted
 	etxs    []*rEtx
 	missing bool // the region never received its pending ETXs
 	hdr     *types.WorkObject
+	// recovery scenarios (recover.go): what the subordinate answers when asked again for this entry
+	answer    string
+	extra     []*rEtx // ETXs the header does not commit to, used by the invalid answers
+	foreign   *rZone  // the other block whose (valid) bundle is sent instead
+	asked     int
+	recovered bool
 }
 
 type rBlock struct {
@@ -82,7 +88,7 @@ const (
 // the answer-to-prime finding is reported once per run (it shows on most blocks and would crowd the report)
 var rollupForDomReported bool
 
-var regionShapes = []string{"demo-prime-between", "prime-heavy", "single-zone-run", "forks", "expansion", "missing-pending", "orphan", "rand"}
+var regionShapes = []string{"demo-prime-between", "prime-heavy", "single-zone-run", "forks", "expansion", "missing-pending", "orphan", "recover-valid", "recover-bad", "recover-mixed", "recover-noclient", "rand"}
 
 // genRegion builds a history as a deterministic function of the descriptor.
 func genRegion(d Desc) *rHist {
@@ -271,6 +277,9 @@ func genRegion(d Desc) *rHist {
 	case "orphan":
 		h.blocks[r.Intn(len(h.blocks))].orphan = true
 	}
+	if isRecover(d.Shape) {
+		markRecover(h, d, r, func(owner *rBlock) *rEtx { return mkEtx(pickDest(), pickType(), owner.loc[0]<<4|owner.loc[1]) })
+	}
 	return h
 }
 
@@ -319,7 +328,11 @@ func runRegion(d Desc, cw *hlib.CaseWriter) {
 	for z := 0; z < h.nz; z++ {
 		slices = append(slices, common.Location{h.region, byte(z)})
 	}
-	node, err := core.VerifC04NewRegion(rawdb.NewMemoryDatabase(logger), nodeLocR, slices, 4, logger)
+	newNode := core.VerifC04NewRegion
+	if isRecover(d.Shape) {
+		newNode = core.VerifC04NewDom // the recovery path wired as in NewSlice
+	}
+	node, err := newNode(rawdb.NewMemoryDatabase(logger), nodeLocR, slices, 4, logger)
 	if err != nil {
 		fail("route-region:setup", "cannot build the region node: "+err.Error())
 		return
@@ -347,7 +360,7 @@ func runRegion(d Desc, cw *hlib.CaseWriter) {
 			etxs = append(etxs, e.tx)
 		}
 		pe := types.PendingEtxs{Header: wo.ConvertToPEtxView(), OutboundEtxs: etxs}
-		z.hash = pe.Header.Hash()
+		z.hash, z.hdr = pe.Header.Hash(), wo
 		if z.missing {
 			return true
 		}
@@ -442,6 +455,14 @@ func runRegion(d Desc, cw *hlib.CaseWriter) {
 			}
 			node.WriteInboundEtxs(got.Hash(), in)
 		}
+	}
+
+	// recovery scenarios: retry every collection past the threshold with the subordinate answering
+	var rc *recCtx
+	var recAns map[*rBlock][]types.Transactions
+	if isRecover(d.Shape) {
+		rc = &recCtx{level: "region", ctxN: common.REGION_CTX, node: node, h: h, d: d, idOfHash: idOfHash, fail: fail, cw: cw}
+		recAns = recoverPhase(rc)
 	}
 
 	collect := func(b *rBlock, order int) rObs {
@@ -621,10 +642,10 @@ func runRegion(d Desc, cw *hlib.CaseWriter) {
 		for a := b; a != nil; a = a.parent {
 			path = append([]*rBlock{a}, path...)
 		}
-		ok := true
+		ok, structOK := true, true
 		for _, a := range path {
 			if a.orphan {
-				ok = false
+				ok, structOK = false, false
 			}
 			for _, z := range a.manifest {
 				if z.missing {
@@ -635,16 +656,16 @@ func runRegion(d Desc, cw *hlib.CaseWriter) {
 			if a != b && a.order == common.PRIME_CTX {
 				regs, zs := common.GetHierarchySizeForExpansionNumber(a.exp)
 				if b.loc.Region() > int(regs) || b.loc.Zone() > int(zs) {
-					ok = false
+					ok, structOK = false, false
 				}
 			}
 		}
 		got := handed[b]
-		if !ok {
+		if !ok && (!structOK || len(recAns[b]) == 0) {
 			rep.Count("region:monitor:not-applicable")
 			continue
 		}
-		if got.class != 0 {
+		if ok && got.class != 0 {
 			fail("route-region:error-on-complete-history", fmt.Sprintf("CollectNewlyConfirmedEtxs fails (class %d) on a complete history", got.class))
 			continue
 		}
@@ -691,6 +712,14 @@ func runRegion(d Desc, cw *hlib.CaseWriter) {
 					delivered[e.id] = true
 				}
 			}
+		}
+		// what succeeded while the node was recovering missing entries: only what the headers commit to
+		if len(recAns[b]) > 0 {
+			compareRecovered(rc, b, due, recAns[b], pathString(path))
+		}
+		if !ok {
+			rep.Count("region:monitor:not-applicable")
+			continue
 		}
 		nDue += len(due)
 		wantCount := map[int]int{}
